@@ -491,7 +491,11 @@ fn vp_native_redirect_matrix() {
             };
             return resp(status, Some(&loc), "");
         }
-        match &path[..] { "/noloc" => resp(302, None, ""), "/badloc" => resp(302, Some("http://[bad"), ""), "/ftploc" => resp(302, Some("ftp://127.0.0.1/x"), ""), _ => resp(404, None, "nf") }
+        match &path[..] { "/noloc" => resp(302, None, ""), "/badloc" => resp(302, Some("http://[bad"), ""), "/ftploc" => resp(302, Some("ftp://127.0.0.1/x"), ""),
+            // non-http schemes that name a listening port (this server's): following them would produce a second request here
+            "/gopherloc" => resp(302, Some(&format!("gopher://127.0.0.1:{}/x", port)), ""), "/wsloc" => resp(307, Some(&format!("ws://127.0.0.1:{}/x", port)), ""),
+            "/ftpportloc" => resp(301, Some(&format!("ftp://127.0.0.1:{}/x", port)), ""), "/mailloc" => resp(303, Some("mailto:someone@example.test"), ""),
+            _ => resp(404, None, "nf") }
     });
     let base = format!("http://127.0.0.1:{}", port);
     let s = { let mut s = crate::Session::new(); s.proxy_settings(crate::ProxySettings::builder().build()); s };
@@ -525,7 +529,12 @@ fn vp_native_redirect_matrix() {
             }
         } }
     } } }
-    for p in ["/noloc", "/badloc", "/ftploc"] { assert!(s.get(format!("{}{}", base, p)).send().is_err(), "{} must be an error", p); cases += 1; }
+    for p in ["/noloc", "/badloc", "/ftploc", "/gopherloc", "/wsloc", "/ftpportloc", "/mailloc"] {
+        seen.lock().unwrap().clear();
+        assert!(s.get(format!("{}{}", base, p)).send().is_err(), "{} must be an error", p);
+        assert_eq!(seen.lock().unwrap().len(), 1, "{}: an unusable Location is not followed", p);
+        cases += 1;
+    }
     println!("VP-NATIVE redirect_matrix cases={}", cases);
 }
 
